@@ -53,6 +53,46 @@ def main():
             violations.append({"what": what})
 
     try:
+        # directed histories with two store objects over the same directories (two processes / a long-lived store):
+        # the committed map is whatever the latest sync_paths of ANY writer set, for every reader
+        n_directed = 0
+        for kind in ("local", "local+cache"):
+            for p_ in ("/a", "/d/e/f", "/x y/z"):
+                for variant in ("other_writer_repoints", "link_removed_by_hand", "other_writer_then_same_key"):
+                    n_directed += 1
+                    evals += 1
+                    d = os.path.join(tmp, "dir_%s_%d" % (kind.replace("+", "_"), n_directed))
+
+                    def mk2():
+                        s_ = LocalFileStore(os.path.join(d, "int"), os.path.join(d, "data"))
+                        return LRUCacheStore(s_, 2) if kind == "local+cache" else s_
+
+                    a, b = mk2(), mk2()
+                    a.store_blob("k1", "value-of-k1", None)
+                    b.store_blob("k2", "value-of-k2", None)
+                    a.sync_paths(OrderedDict([(p_, "k1")]))
+                    if variant == "other_writer_repoints":
+                        b.sync_paths(OrderedDict([(p_, "k2")]))
+                    elif variant == "link_removed_by_hand":
+                        links = [os.path.join(r_, f_) for r_, _, fs_ in os.walk(os.path.join(d, "data")) for f_ in fs_ if os.path.islink(os.path.join(r_, f_))]
+                        for l_ in links:  # the one link the commit created, wherever the store put it
+                            os.remove(l_)
+                    else:
+                        b.sync_paths(OrderedDict([(p_, "k2")]))
+                        b.sync_paths(OrderedDict([(p_, "k1")]))
+                        a.sync_paths(OrderedDict([(p_, "k2")]))
+                        b.sync_paths(OrderedDict([(p_, "k1")]))
+                    want = "k1"
+                    if variant != "other_writer_then_same_key":
+                        a.sync_paths(OrderedDict([(p_, "k1")]))
+                    for who, st_ in (("the committing store", a), ("the other store", b), ("a fresh store", mk2())):
+                        try:
+                            got = st_.fetch_paths([p_]).get(p_)
+                        except BaseException as e:
+                            got = "raised %s" % type(e).__name__
+                        if got != want:
+                            note(None, "[%s] two writers, %s: after the last sync_paths(%s -> %s) %s resolves the path to %r" % (kind, variant, p_, want, who, got))
+                    shutil.rmtree(d, ignore_errors=True)
         for kind in ("memory", "local", "local+cache"):
             for it in range(nseq):
                 evals += 1
@@ -70,7 +110,7 @@ def main():
                 ops = []
                 bad_path_committed = None
                 for step in range(rnd.randrange(2, 9)):
-                    op = rnd.choice(["store", "has", "fetch", "sync", "fetchp", "reopen"])
+                    op = rnd.choice(["store", "has", "fetch", "sync", "fetchp", "reopen", "other_writer"])
                     key = rnd.choice(["k1", "k2", "k3"])
                     if op == "store":
                         val = "value-of-" + key
@@ -127,6 +167,18 @@ def main():
                             for q in culprit:
                                 cls = cls or classify_alias(p, q)
                             note(cls, "[%s] %s: %s resolves to %s, committed with %s (aliases %s)" % (kind, ops, p, got, paths[p], culprit))
+                    elif op == "other_writer" and kind != "memory" and paths and blobs:
+                        # another process (another store object on the same directories) re-commits a path
+                        other = mk()
+                        p_ = rnd.choice(list(paths))
+                        k_ = rnd.choice(list(blobs))
+                        ops.append("other_writer_sync(%s -> %s)" % (p_, k_))
+                        try:
+                            other.sync_paths(OrderedDict([(p_, k_)]))
+                            paths[p_] = k_
+                        except BaseException as e:
+                            note("path_is_prefix_of_committed_path" if isinstance(e, (IsADirectoryError, FileExistsError, NotADirectoryError)) else None, "[%s] %s: other writer raised %s" % (kind, ops, type(e).__name__))
+                            break
                     elif op == "reopen" and kind != "memory":
                         st = mk()
                         ops.append("reopen")
@@ -137,7 +189,7 @@ def main():
     finally:
         shutil.rmtree(tmp, ignore_errors=True)
     print(json.dumps({
-        "scope": "%d random operation sequences (2..8 ops, seed %d) per store kind x 3 store kinds, paths from %d-name alphabet incl. a/b/ab, dots, spaces, unicode, '.'/'..'" % (nseq, seed, len(PATHS) + len(ODD)),
+        "scope": "18 directed two-writer histories + %d random operation sequences (2..8 ops incl. another store object on the same directories, seed %d) per store kind x 3 store kinds, paths from %d-name alphabet incl. a/b/ab, dots, spaces, unicode, '.'/'..'" % (nseq, seed, len(PATHS) + len(ODD)),
         "evaluations": evals, "distinct_nontrivial": evals,
         "rule": "one case per (store kind, random operation sequence), compared step by step with a dictionary model",
         "samples": samples, "violations": violations,
